@@ -496,6 +496,25 @@ func (c *Ctx) originRaw(in ssa.Instruction, x ssa.Value, d int) string {
 		if fr, ok := core.AsFieldLoad(o); ok {
 			return fr.Owner + "." + fr.Field
 		}
+		// a private step that hands back what another call produced (`return g.EdgeToPath(…)`)
+		if h := o.Common().StaticCallee(); h != nil && c.P.PrivateHelper(h) && h.Signature.Results().Len() == 1 {
+			srcs := map[string]bool{}
+			saved := core.PathEnv
+			core.PathEnv = nil
+			for _, r := range core.Returns(h) {
+				if len(r.Results) == 1 {
+					srcs[c.originRaw(r, r.Results[0], d+1)] = true
+				}
+			}
+			core.PathEnv = saved
+			if len(srcs) == 1 {
+				for k := range srcs {
+					if k != "local" && k != "param" {
+						return k
+					}
+				}
+			}
+		}
 		return c.callName(o)
 	case *ssa.Extract:
 		if cl, ok := o.Tuple.(*ssa.Call); ok {
